@@ -24,7 +24,7 @@ RULE = (
     "Same generator as C01 (vf.graphs.collection_spec), one sub-check per collection type. Non-trivial = the document has >= 3 non-empty top-level "
     "lists and some object is referenced from >= 2 places."
 )
-ASSUMPTIONS = ["objects are identified by uuid (tags by (term label, value)); one uuid <-> one object in the generated graphs", "no list of the collection contains the same object twice"]
+ASSUMPTIONS = ["objects are identified by uuid (tags by (term label, value)); one uuid <-> one object in the generated graphs", "the top-level recordings list of a recording set / dataset does not contain the same recording twice (tags, owners, sequence members and predicted tags may repeat)"]
 
 LISTS = [
     "users", "tags", "recordings", "clips", "sound_events", "sequences", "sound_event_annotations", "sequence_annotations",
@@ -37,6 +37,10 @@ def make_case(ctype):
     def case(draw):
         spec = draw(graphs.collection_spec(ctype=ctype))
         spec["audio"] = draw(st.sampled_from(["none", "none", "path"]))
+        if "recordings" in spec["top"]:
+            # a recording set's top-level `recordings` list is at once the collection's content and the document's definition list:
+            # a set listing one recording twice cannot be both faithful (C01) and free of duplicate ids, so it is outside C02's domain
+            spec["top"]["recordings"] = list(dict.fromkeys(spec["top"]["recordings"]))
         if ctype == "evaluation":
             # the evaluation is edited after it was built (models are mutable, validators do not re-run): low-score predictions
             # filtered out of a clip, an annotation withdrawn - the matches still mention them, so they stay reachable
